@@ -54,6 +54,14 @@ CHECKS = {
    text="ComplexContagion.tla specifies the chain of Gillespie_complex_contagion for a table-driven user model (threshold contagion, SIR as complex contagion, cyclic 3-status, distance-2 influence, neighbour-dependent chooser) together with the implementation-shaped bag of rates that is re-rated only for the changed node and its influence set; TLC checks rates[v] = Rate(v, st) in every reachable state, stop iff all rates are zero, and must find a stale rate for a deliberately inadequate influence set (non-vacuity control); the emitted rate-labelled graph is walked by the real simulator (user callbacks generated from the same table) with exact comparison of next-node probabilities, clock rate, chooser result, stopping and rows at every history.",
    note="Graphs on 3-4 nodes, horizon 4-6 events; trusts TLC and the scripted source.",
    technique="TLA+ spec (ComplexContagion, reference + implementation-shaped bag) model-checked with TLC; spec-to-code replay with exact kernel comparison"),
+ "C12": dict(level="model_checking", ref="DESIGN.md §5 C12",
+   text="DiscreteRule.tla: TLC checks that the generation loop of discrete_SIR under a table-driven deterministic transmission rule (and optional recovery test) is a BFS in the directed graph of successful contacts with initially recovered nodes removed, one-step infectiousness, conservation and monotonicity, on exhaustive 3-node scenarios and seeded 3-8 node scenarios, and emits infection/recovery times that the real discrete_SIR must reproduce in both return modes. DiscreteEpi.tla: TLC emits the exact Reed-Frost / discrete SIS transition matrix (numerators over PB^m) for every graph on 3-4 nodes and checks it is a probability kernel; the complete decision trees of basic_discrete_SIR, percolation_based_discrete_SIR, basic_discrete_SIS (node-level kernel per generation in full-data mode, law of the numbers of new infections in array mode) and percolate_network (every kept-edge set) are enumerated under the scripted random source and compared exactly.",
+   note="p=1/2; SIS runs to 1-2 generations from every state (every state is an initial state of the chain); trusts TLC and the scripted source.",
+   technique="TLA+ specs (DiscreteRule: loop vs BFS; DiscreteEpi: exact transition matrix) model-checked with TLC; TLC-emitted outcomes / kernels replayed into the code with exact probability comparison"),
+ "C17": dict(level="model_checking", ref="DESIGN.md §5 C17",
+   text="TLC model-checks Percolation.tla (bounded-closure reachability, SCCs, largest components, admissible-answer sets {(|In(C)|,|Out(C)|) : C largest}, bond-percolation outcome weights, rule/timing-defined percolated digraph) with an independent relation-squaring fixpoint and a walk-based definition cross-checked as invariants, exhaustively over all digraphs on <=4 nodes and all graph x table / type / duration-delay / bond-outcome scenarios on <=3-4 nodes (thorough adds seeded 4-6 node scenarios); every emitted scenario is replayed into estimate_SIR_prob_size_from_dir_perc (membership in the admissible set, any tie choice), percolate_network / estimate_SIR_prob_size (complete decision trees, exact probabilities), nonMarkov_directed_percolate_network(_with_timing) and estimate_nonMarkov_SIR_prob_size(_with_timing) (recorded table-driven callbacks: each ordered neighbour pair queried once with (xi[u], zeta[v]); returned graph = spec's H incl. attributes), directed_percolate_network / estimate_directed_SIR_prob_size (scripted expovariate values).",
+   note="Verdicts only from returned pairs and graphs, callback arguments and draws requested from the scripted source; draw order differing from the probe is a NOTE; all numbers dyadic or Inf.",
+   technique="TLA+ spec (Percolation) model-checked with TLC; TLC-emitted scenario -> admissible answers replayed into the code"),
 }
 NOT_YET = "check not built yet in this round (planned in DESIGN.md §5); not claimed"
 NA = {"C07": "pure numerical agreement between floating-point solutions of different ODE systems: no discrete state, history or finite oracle a TLA+ specification could enumerate (DESIGN.md §7)"}
